@@ -5,6 +5,8 @@ set -u
 export GOFLAGS=-mod=mod GOPROXY=off GOSUMDB=off GOTOOLCHAIN=local
 P=$1; N=$2; TIER=${3:-quick}; CHK=${4:-$P}
 SRC=/tmp/seed_$P.out/$N; W=/tmp/seed_$P; D=/verif/seeded/$P-$N
+# round 2 (independent second agent per property): seeds 3 and 4 come from /tmp/seed2_<P>.out/{1,2}
+if [ "$N" -ge 3 ]; then SRC=/tmp/seed2_$P.out/$((N-2)); W=/tmp/seed2_$P; fi
 [ -d $D ] || { mkdir -p $D; cp $SRC/patch.diff $SRC/demo_test.go $D/; cp $SRC/notes.txt $D/ 2>/dev/null; }
 PKG=$(head -3 $D/demo_test.go | grep -oE '"[^"]+"' | head -1 | tr -d '"'); PKG=${PKG:-.}
 [ -n "${PKGDIR:-}" ] && PKG=$PKGDIR
